@@ -241,6 +241,31 @@ def check(case):
             case.close(v1, first[0], rtol=1e-9, what='compute_log_likelihood vs score of compute_sensitivities')
             case.close(np.sum(p1), v1, rtol=1e-9, what='sum(pointwise) vs total (same arrays)')
 
+    # the fixed set of a reduced error model is swapped in ONE call (never all free in between)
+    if s['fixed'] is not None and npar == 2 and len(s['fixed']) == 1 and insup:
+        with case.clause('refix_swap'):
+            k_old = int(s['fixed'][0])
+            k_new = 1 - k_old
+            dn = ref.EM_DEFAULT_NAMES[kind]
+            em.fix_parameters({dn[k_old]: None, dn[k_new]: float(sig[k_new])})
+            case.equal(em.get_parameter_names(), [dn[k_old]], 'names after swapping the fixed parameter')
+            sc, sens = em.compute_sensitivities(sig[[k_old]].copy(), ybar.copy(), S.copy(), y.copy())
+            case.close(sc, want, rtol=1e-9, what='score after swapping the fixed parameter')
+            dyb = ref.cgrad(lambda z: ref.em_loglik(kind, sig, z, y), ybar)
+            dsig = ref.cgrad(lambda z: ref.em_loglik(kind, z, ybar, y), sig)
+            want_s = np.concatenate([dyb @ S, dsig[[k_old]]])
+            scale = np.concatenate([np.abs(dyb) @ np.abs(S), np.abs(dsig[[k_old]])])
+            sens = np.asarray(sens, dtype=float)
+            case.equal(sens.shape, (p + 1,), 'sensitivity shape after swapping the fixed parameter', kind='shape')
+            err = np.abs(sens - want_s)
+            tol = 1e-8 * np.maximum(1.0, scale)
+            if np.any(~(err <= tol)):
+                k = int(np.argmax(err / tol))
+                case.fail('mismatch', 'sensitivity[%d] after swapping the fixed parameter: got %r expected %r' % (
+                    k, sens[k], want_s[k]))
+            # back to the configuration of the spec
+            em.fix_parameters({dn[k_new]: None, dn[k_old]: float(sig[k_old])})
+
     if insup:
         with case.clause('normalisation'):
             if kind == 'lognorm' and sig[0] > 5:
